@@ -786,6 +786,8 @@ pub struct RunOpts {
     pub trace: bool,
     pub heavy_audit: bool,
     pub scan_every: u32,
+    /// interpreter tiers: audit only every 4th step (and at the end)
+    pub lean: bool,
 }
 
 /// One run: a pure function of (spec, opts, build, code under test).
@@ -811,7 +813,7 @@ pub fn run_spec<W: WorldSpec>(spec: &RunSpec, opts: RunOpts) -> RunResult {
                 e.step = i as u32;
                 rt::trace(|| format!("#{} {}", i, crate::sx::ToSx::to_sx(op)));
                 e.exec(op);
-                if !rt::has_violation() {
+                if !rt::has_violation() && (!opts.lean || i % 4 == 3) {
                     e.audit_step(false);
                 }
                 steps += 1;
@@ -822,7 +824,7 @@ pub fn run_spec<W: WorldSpec>(spec: &RunSpec, opts: RunOpts) -> RunResult {
             }
             if failed_at.is_none() {
                 e.step = spec.ops.len() as u32;
-                e.finish(spec.crash_after.is_some());
+                e.finish(spec.crash_after.is_some() || opts.lean);
                 if rt::has_violation() {
                     failed_at = Some(spec.ops.len() as u32);
                 }
